@@ -740,11 +740,6 @@ class PWLCalibrationConstraints(keras.constraints.Constraint):
 
     canonical_convexity = utils.canonicalize_convexity(self.convexity)
     canonical_monotonicity = utils.canonicalize_monotonicity(self.monotonicity)
-    if (canonical_monotonicity == 0 and
-        pwl_calibration_lib.BoundConstraintsType.CLAMPED in
-        (output_min_constraints, output_max_constraints)):
-      raise ValueError("Clamping is not implemented for non monotonic "
-                       "functions.")
     if (canonical_convexity != 0 and canonical_monotonicity == 0 and
         (output_min_constraints != pwl_calibration_lib.BoundConstraintsType.NONE
          or output_max_constraints !=
